@@ -64,7 +64,7 @@ PROPS = {
     "C08": dict(
         modules=["JPV.Props.C08", "JPV.Props.C07"],
         theorems=["JPV.Props.C08_loc", "JPV.Props.C08_loc_nonneg", "JPV.Props.C08_canonical", "JPV.Props.C08_path_normal",
-                  "JPV.Props.C08_unique", "JPV.Props.C07_loc_nonneg", "JPV.Props.C07_index_loc"],
+                  "JPV.Props.C08_unique", "JPV.Props.C08_path_compiles", "JPV.Props.C08_requery", "JPV.Props.C07_loc_nonneg", "JPV.Props.C07_index_loc"],
         tables=[T + "writes_benign"],
         explore=ct.explore_c08,
     ),
@@ -130,7 +130,7 @@ PROPS = {
     ),
     "C12": dict(
         modules=["JPV.Props.C12", "JPV.Props.C08", "JPV.Props.C07"],
-        theorems=["JPV.Props.C12_partial", "JPV.Props.C12_fixpoint", "JPV.Props.C12_quoting", "JPV.Props.C08_canonical",
+        theorems=["JPV.Props.C12_partial", "JPV.Props.C12_filter_partial", "JPV.Props.C12_fixpoint", "JPV.Props.C12_quoting", "JPV.Props.C08_canonical",
                   "JPV.Props.C07_slice"],
         tables=[T + "precedences_model", T + "precedence_consts", T + "binary_operators_model"],
         explore=ct.explore_c12,
